@@ -63,7 +63,7 @@ theorem update_one_reports (cfg : Cfg) (now : Int) (c c' : Coll) (fs : Fields) (
     (hne : c.docs ≠ []) (hi : IdInv c) (hg : GoodKeys c) (hn : c.ttlIndexes = [])
     (hs : selectDocs (patchDT (.doc fs)) c.docs = .ok sel) (hup : boolOf up = false)
     (h : stepColl cfg now c (.arr [.str "update_one", .doc fs, u, up]) = (c', .val out)) :
-    out = reportOf (sel.take 1).length ((sel.take 1).filter (changedAfter c c')).length := by
+    out = reportOf (sel.take 1).length ((sel.take 1).filter (contentChangedAfter c')).length := by
   obtain ⟨res, happ, rfl⟩ := step_update_one cfg now c c' _ u up out h
   rw [hup] at happ
   obtain ⟨h1, h2, h3⟩ := update_one_counts cfg now c c' fs u sel res hne hi hg hn hs happ
@@ -74,7 +74,7 @@ theorem replace_one_reports (cfg : Cfg) (now : Int) (c c' : Coll) (fs : Fields) 
     (hne : c.docs ≠ []) (hi : IdInv c) (hg : GoodKeys c) (hn : c.ttlIndexes = [])
     (hs : selectDocs (patchDT (.doc fs)) c.docs = .ok sel) (hup : boolOf up = false)
     (h : stepColl cfg now c (.arr [.str "replace_one", .doc fs, r, up]) = (c', .val out)) :
-    out = reportOf (sel.take 1).length ((sel.take 1).filter (changedAfter c c')).length := by
+    out = reportOf (sel.take 1).length ((sel.take 1).filter (contentChangedAfter c')).length := by
   obtain ⟨res, happ, rfl⟩ := step_replace_one cfg now c c' _ r up out h
   rw [hup] at happ
   obtain ⟨h1, h2, h3⟩ := update_one_counts cfg now c c' fs r sel res hne hi hg hn hs happ
@@ -85,7 +85,7 @@ theorem update_many_reports (cfg : Cfg) (now : Int) (c c' : Coll) (fs : Fields) 
     (hi : IdInv c) (hg : GoodKeys c) (hn : c.ttlIndexes = [])
     (hs : selectDocs (patchDT (.doc fs)) c.docs = .ok sel) (hup : boolOf up = false)
     (h : stepColl cfg now c (.arr [.str "update_many", .doc fs, u, up]) = (c', .val out)) :
-    out = reportOf sel.length (sel.filter (changedAfter c c')).length := by
+    out = reportOf sel.length (sel.filter (contentChangedAfter c')).length := by
   obtain ⟨res, happ, rfl⟩ := step_update_many cfg now c c' _ u up out h
   rw [hup] at happ
   obtain ⟨h1, h2, _, hu⟩ := update_many_counts cfg now c c' fs u sel res hi hg hn hs happ
